@@ -101,3 +101,53 @@ Proof.
   all: pose_sums HB HH Ahb1 Amb.
   all: rew_pcs; simpl in *; lia.
 Qed.
+
+(** ** the bound [K] exists: the identifiers used by the schedule so far *)
+Definition label_id (l : label) : nat :=
+  match l with LCall c => S c | LRhCall r => S r | _ => 0 end.
+Definition ids_bound (ls : list label) : nat := fold_right (fun l acc => Nat.max (label_id l) acc) 0 ls.
+
+Lemma bounded_step K s l s' : bounded K s -> label_id l <= K -> step s l = Some s' -> bounded K s'.
+Proof.
+  intros B Hid H. unfold bounded in *. destruct l; simpl in Hid; step_cases H; simpl; intros i Hi; try (apply B; assumption).
+  all: upd_all; try (apply B; assumption); try lia.
+  all: destruct (B _ Hi) as [B1 B2]; congruence.
+Qed.
+Lemma bounded_mono K K' s : bounded K s -> K <= K' -> bounded K' s.
+Proof. intros B Hle i Hi. apply B. lia. Qed.
+Lemma bounded_exec K s ls : bounded K s -> ids_bound ls <= K -> bounded K (exec s ls).
+Proof.
+  revert s. induction ls as [|l ls IH]; intros s B Hb; [assumption|].
+  change (Nat.max (label_id l) (ids_bound ls) <= K) in Hb.
+  pose proof (Nat.le_max_l (label_id l) (ids_bound ls)) as H1.
+  pose proof (Nat.le_max_r (label_id l) (ids_bound ls)) as H2.
+  simpl. destruct (step s l) eqn:E; [|apply IH; [assumption|lia]].
+  apply IH; [|lia]. apply bounded_step with (s := s) (l := l); [assumption | lia | assumption].
+Qed.
+Lemma bounded_init_u n u hon f5 f6 f12 f16 : bounded 0 (init_u n u hon f5 f6 f12 f16).
+Proof. intros i _. simpl. auto. Qed.
+Lemma hbounded_exec s ls : hbounded s -> hbounded (exec s ls).
+Proof.
+  revert s. induction ls as [|l ls IH]; intros s B; simpl; [assumption|].
+  destruct (step s l) eqn:E; [apply IH; eapply hbounded_step; eassumption | apply IH; assumption].
+Qed.
+
+(** ** every run of system labels is finite: its length is bounded by the measure *)
+Lemma sys_label_id l : sys_label l = true -> label_id l = 0.
+Proof. destruct l; simpl; intros H; try reflexivity; discriminate. Qed.
+
+Lemma system_run_bounded K ls : forall s s',
+  Inv s -> hbounded s -> bounded K s ->
+  Forall (fun l => sys_label l = true) ls -> replay s ls = Some s' ->
+  length ls + mu K s' <= mu K s /\ Inv s' /\ hbounded s' /\ bounded K s'.
+Proof.
+  induction ls as [|l ls IH]; intros s s' I HH HB Hall Hr; simpl in *.
+  - inversion Hr; subst. split; [lia|]. split; [assumption|]. split; assumption.
+  - inversion Hall as [|? ? Hl Hrest]; subst.
+    destruct (step s l) as [s1|] eqn:E; [|discriminate].
+    pose proof (mu_decreases K s l s1 I HH HB Hl E) as Hd.
+    assert (I1 : Inv s1) by (eapply Inv_step; eassumption).
+    assert (HH1 : hbounded s1) by (eapply hbounded_step; eassumption).
+    assert (HB1 : bounded K s1) by (eapply bounded_step; [eassumption | rewrite (sys_label_id l Hl); lia | eassumption]).
+    destruct (IH s1 s' I1 HH1 HB1 Hrest Hr) as (Hlen & R). split; [lia | exact R].
+Qed.
